@@ -183,12 +183,14 @@ QUICK_INPUTS = [
     ("5vav_cyclic_peptide.pdb", ["--ff=AMBER"]),
     ("1AJJ.pdb", ["--ff=PARSE", "--nodebump"]),
     ("1BX8.pdb", ["--ff=AMBER", "--noopt"]),
+    # protonated carboxylic acids (Carboxylic optimisation objects; finding C14-F5e)
+    ("1AJJ.pdb", ["--ff=AMBER", "--titration-state-method=propka", "--with-ph=4.0"]),
 ]
 THOROUGH_INPUTS = QUICK_INPUTS + [
     ("1K1I.pdb", ["--ff=AMBER"]),
     ("1AFS.pdb", ["--ff=AMBER"]),
     ("1US0.pdb", ["--ff=PARSE"]),
-    ("1AJJ.pdb", ["--ff=AMBER", "--titration-state-method=propka", "--with-ph=4.0"]),
+    ("1AJJ.pdb", ["--ff=PARSE", "--titration-state-method=propka", "--with-ph=2.0"]),
     ("1BX8.pdb", ["--ff=SWANSON", "--titration-state-method=propka", "--with-ph=10.0"]),
     ("1K1I.pdb", ["--ff=TYL06", "--nodebump"]),
 ]
